@@ -25,6 +25,11 @@ def derive_line(g, L, known, grid, kind, args, rng=None, with_battery=True, muta
             H = g.to_directed()
         elif kind == "to_undirected":
             H = g.to_undirected(reciprocal=True) if args.get("recip") else g.to_undirected()
+        elif kind == "subgraph":           # beyond the listed properties (X01)
+            nb = [L.node(n) for n in args["nb"]]
+            H = dn.subgraph(g, nb) if args.get("form") == "function" else g.subgraph(nb)
+        elif kind == "empty_copy":         # beyond the listed properties (X01)
+            H = dn.create_empty_copy(g, with_data=bool(args["withdata"]))
         else:
             raise AssertionError(kind)
         res = "ok"
